@@ -91,14 +91,21 @@ func ccelProblem(c *ecase, measured [4]bool, regs [4][]byte) (problem string, go
 	if got2 != got {
 		return fmt.Sprintf("state returned=%v through a re-used verification options value, %v through a fresh one", got2, got), got2
 	}
+	// ... and the same call once more through that value (twin, case, case): a refused call leaves no credit for its repetition
+	p3, got3 := ccelProblemWith(c, measured, regs, sh)
+	if p3 != "" {
+		return "through a re-used verification options value (after the unbroken twin and this case once before): " + p3, got3
+	}
+	if got3 != got {
+		return fmt.Sprintf("history (unbroken twin, this case, this case again) through one verification options value: state returned=%v at the third call, %v through a fresh value", got3, got), got3
+	}
 	return "", got
 }
 
 func ccelProblemWith(c *ecase, measured [4]bool, regs [4][]byte, shared *verify.Options) (problem string, gotState bool) {
 	vo, _ := mon.Options(c.V)
 	if shared != nil {
-		g := vo.Getter
-		shared.GetCollateral, shared.CheckRevocations, shared.Getter, shared.Now, shared.TrustedRoots = vo.GetCollateral, vo.CheckRevocations, g, vo.Now, vo.TrustedRoots
+		mon.ConfigureShared(c.V, shared) // (keeps the caller's pool and time-set objects when they say the same as before)
 		vo = shared
 	}
 	log := ccelData
